@@ -318,6 +318,44 @@ def _r11a_route(P, R):
                 "%s transforms directive definitions before pushing them, or pushes them only under a condition" % g.path, loc=g.loc())
 
 
+def _consumed_always(P, R, rg, sc, consumers):
+    """a function that consumes a registry does so on every path: consuming is what merges the extensions *and* what reports the
+    ones without an original.  An early non-error return placed before the consumption and guarded by a query of the registry is
+    decided by what that query looks at: if it never reads the entry's extensions, registries that hold only extensions take the
+    shortcut and their extensions vanish without a diagnostic."""
+    if rg.entry is None:
+        return
+    for g in sc:
+        acc = g.nodes()
+        cons = [i for i, (x, _p) in enumerate(acc) if x.get("k") in ("Call", "MethodCall") and call_name(x) in consumers]
+        if not cons:
+            continue
+        for i, (x, _p) in enumerate(acc):
+            if x.get("k") != "Ret" or str(x.get("x", "")).startswith("desugar") or i > min(cons):
+                continue
+            if any((call_name(y) or "").endswith("result::Result::Err") for y in subnodes(x) if y.get("k") == "Call"):
+                continue
+            guards = [c for c in enclosing_contexts(g, i) if c[0] in ("if-then", "if-else", "let-else", "arm") and not _is_try(c)]
+            queries = []
+            for c in guards:
+                gx = c[1].get("cond") if c[0].startswith("if") else (c[1].get("init") if c[0] == "let-else" else c[1]["scrut"])
+                for y in subnodes(gx or {}):
+                    q = P.fns.get(call_name(y)) if y.get("k") in ("Call", "MethodCall") and call_name(y) else None
+                    if q is not None and q.self_adt == rg.list and q.path not in consumers:
+                        queries.append(q)
+            for q in queries:
+                reads = _deep_field_reads(P, q, q.body, rg.entry)
+                key = "consumed-always:%s" % g.name
+                if reads and rg.ext_field not in reads:
+                    R.violated("R11-a", key, "%s returns without consuming the registry when %s says so, and %s looks only at `%s` of the entries, "
+                               "never at `%s`: a registry that holds extensions but no definition takes the shortcut, so those extensions are "
+                               "neither merged nor reported as extensions without an original" % (g.path, short(q.path), short(q.path),
+                                                                                                "`, `".join(sorted(reads)), rg.ext_field), loc=g.loc())
+                else:
+                    R.holds("R11-a", key, "the shortcut before the consumption is taken only for a registry without entries or after "
+                            "looking at the extensions as well", loc=g.loc())
+
+
 def _r11a_lists(P, R):
     """every kind's registry is filled with originals, filled with extensions, and consumed (kinds = the merge functions' types;
     a registry is identified by its type instantiation, whatever holds it: a local, a struct field, ...)"""
@@ -360,6 +398,7 @@ def _r11a_lists(P, R):
         if not lifted:
             break
         roles.update(lifted)
+    _consumed_always(P, R, rg, sc, {p_ for p_, r_ in roles.items() if r_ == "is consumed"})
     mf = merge_fns(P)
     R.floor("R11-a", "merge functions (by signature)", len(mf), 7)
     for g, orig, ext in mf:
@@ -717,6 +756,19 @@ def r11b(P, R):
             continue
         pushes = [n for n in h.walk() if n.get("k") == "MethodCall" and n["method"] == "push"]
         bad = [n["method"] for n in h.walk() if n.get("k") == "MethodCall" and n["method"] in LOSSY_OR_REORDERING] + _set_passages(h.walk())
+        # every element that enters comes out: no early exit from the per-element loop, no push under a condition on the element
+        for i, (x, _p) in enumerate(h.nodes()):
+            ctx = None
+            if x.get("k") in ("Continue", "Break", "Ret") and not str(x.get("x", "")).startswith("desugar"):
+                ctx = enclosing_contexts(h, i)
+                if any(c[0] == "loop" and c[1].get("src") == "ForLoop" for c in ctx):
+                    bad.append("`%s` inside the per-element loop" % x["k"].lower())
+            elif x.get("k") == "MethodCall" and x["method"] in ("push", "push_back", "extend"):
+                ctx = enclosing_contexts(h, i)
+                li = next((j for j, c in enumerate(ctx) if c[0] == "loop"), None)
+                if li is not None and any(c[0] in ("if-then", "if-else", "let-else") or (c[0] == "arm" and c[1] is not None
+                                          and not str(c[1].get("src", "")).startswith(("ForLoop", "TryDesugar"))) for c in ctx[:li]):
+                    bad.append("conditional `%s`" % x["method"])
         out = h.sig_output or ""
         k = len(_split_top(out[1:-1])) if out.startswith("(") and out.endswith(")") else None
         key = h.name + ":pushes"
@@ -1079,6 +1131,7 @@ def r11e(P, R):
     ext_types = {ext for _, _, ext in merge_fns(P)} | {rg.ext_param}
     group_marks = {rg.orig_param} | {orig for _, orig, _ in merge_fns(P)}
     n = 0
+    generic = {}
     sc = _scope(P)
     for f in sc:
         for c in f.walk():
@@ -1088,9 +1141,13 @@ def r11e(P, R):
             el = next((e for e in cands if e in ext_types), None)
             m = c["method"]
             if el is None:
+                e0 = next((e for e in cands if e), None)
+                if e0 and _IDENT.match(e0) and e0 not in ext_types and e0 != rg.orig_param and m in LOSSY_OR_REORDERING and f.kind == "Fn":
+                    # the element type is a type parameter of a free helper: what it does to extensions is decided where it is called
+                    generic[f.path] = (f, m)
+                    continue
                 # a sort of the (original, extensions) groups is the one legitimate sort: stable, keyed by the original
                 if m.startswith("sort"):
-                    e0 = next((e for e in cands if e), None)
                     key = "sort:%s:%s" % (f.name, m)
                     if e0 and any(re.search(r"(?<![\w:])%s(?![\w:])" % re.escape(g), e0) for g in group_marks):
                         stable = m in ("sort", "sort_by", "sort_by_key", "sort_by_cached_key")
@@ -1106,6 +1163,28 @@ def r11e(P, R):
                            "merged in document order / some are dropped" % (m, el, f.path), loc=f.loc())
             else:
                 R.holds("R11-e", key, "order-preserving use `%s` on a collection of %s" % (m, el.split("::")[-1]), loc=f.loc())
+    for hp, (hf, m) in sorted(generic.items()):
+        used = False
+        for f in sc:
+            for c in f.walk():
+                if c.get("k") != "Call" or call_name(c) != hp:
+                    continue
+                used = True
+                els = [elem_type(a.get("t") or "") for a in c["args"]]
+                hit = next((e for e in els if e in ext_types), None)
+                key = "%s:%s(%s)" % (f.name, hf.name, m)
+                if hit:
+                    n += 1
+                    R.violated("R11-e", key, "%s passes a collection of extensions (%s) to %s, which applies `%s` to it: extensions are no "
+                               "longer merged in document order / some are dropped" % (f.path, hit, hp, m), loc=f.loc())
+                elif any(e and any(re.search(r"(?<![\w:])%s(?![\w:])" % re.escape(g), e) for g in group_marks) for e in els) and m.startswith("sort"):
+                    stable = m in ("sort", "sort_by", "sort_by_key", "sort_by_cached_key")
+                    R.check("R11-e", "sort:%s:%s" % (f.name, m), stable, "stable sort of (original, extensions) groups (through %s)" % hf.name,
+                            "`%s` in %s is not a stable sort" % (m, hp), loc=f.loc())
+                else:
+                    R.undecided("R11-e", key, "%s applies `%s` through the generic helper %s to a collection this rule does not know" % (f.path, m, hp), loc=f.loc())
+        if not used:
+            R.undecided("R11-e", "%s:%s" % (hf.name, m), "%s applies `%s` to a collection of a type parameter and no call of it was found" % (hp, m), loc=hf.loc())
     R.floor("R11-e", "operations on extension collections", n, 3)
     _guarded(R, "R11-e", "anchor:input-order", _r11e_input, P, R)
 
@@ -1114,7 +1193,11 @@ def _r11e_input(P, R):
     """the resolver's input lists definitions and extensions in file / document order, which is the order extensions are merged in:
     the methods of the input document type that combine documents (merge, Extend) keep the order of what they are given"""
     DOC, ITEM = TS + "TypeSystemOrExtensionDocument", TS + "TypeSystemDefinitionOrExtension"
-    fns = [f for f in P.fns.values() if f.self_adt == DOC and not f.derived and "::tests" not in f.path and f.kind in ("Fn", "AssocFn")]
+    # ... i.e. the methods that return a document or change one in place; a read-only query over a document (a name set, a count)
+    # produces nothing the resolver sees
+    fns = [f for f in P.fns.values() if f.self_adt == DOC and not f.derived and "::tests" not in f.path and f.kind in ("Fn", "AssocFn")
+           and (peel_ty(f.sig_output or "") == DOC or (f.sig_output or "").startswith("core::result::Result<" + DOC)
+                or any(t.startswith("&mut ") and peel_ty(t) == DOC for t in f.sig_inputs))]
     n = 0
     for f in sorted(fns, key=lambda x: x.path):
         for c in f.walk():
@@ -1142,6 +1225,11 @@ def _r11e_input(P, R):
                     R.undecided("R11-e", key, "%s replaces a document buffer with `mem::replace`; the resulting order is not decided" % f.path, loc=f.loc())
     R.floor("R11-e", "operations that combine input documents", n, 1)
     _builtins_appended(P, R, DOC, ITEM)
+
+
+def builtins_appended(P, R):
+    """shared with C05: a built-in that does not reach the document changes the verdict of `check` as well"""
+    _builtins_appended(P, R, TS + "TypeSystemOrExtensionDocument", TS + "TypeSystemDefinitionOrExtension")
 
 
 def _builtins_appended(P, R, DOC, ITEM):
@@ -1206,6 +1294,30 @@ def _builtins_appended(P, R, DOC, ITEM):
                             and _strip_deref(z["recv"]).get("k") == "Path" and _strip_deref(z["recv"]).get("local") in consulted:
                         for a_ in z["args"]:
                             leaked |= {x[1].split("::")[-1] for x in gpv.deep_atoms(a_) if x[0] == "field" and x[1] in ext_adts and x[2] == "name"}
+            mixed = []
+            types_ = {norm(v["fields"][0]["ty"]) for v in P.adt(TS + "TypeDefinition").variants if len(v["fields"]) == 1}
+            for g, y in filters:
+                gpv = Prov(g)
+                if any(z.get("k") == "Match" and not str(z.get("src", "")).startswith(("ForLoop", "TryDesugar")) for z in subnodes(y)):
+                    continue   # the predicate distinguishes kinds itself
+                tests = [z for z in subnodes(y) if z.get("k") == "MethodCall" and z["method"] in ("contains", "contains_key") and _strip_deref(z["recv"]).get("k") == "Path"]
+                for z in tests:
+                    lid = _strip_deref(z["recv"]).get("local")
+                    srcs = gpv.src.get(lid, [])
+                    grown = any(w.get("k") == "MethodCall" and w["method"] in ("insert", "extend", "push") and _strip_deref(w["recv"]).get("local") == lid for w in g.walk())
+                    if len(srcs) != 1 or srcs[0][0] is None or grown or srcs[0][0].get("k") not in ("Call", "MethodCall"):
+                        continue
+                    da = gpv.deep_atoms(srcs[0][0])
+                    has_dir = any(x[0] == "field" and x[1] == TS + "DirectiveDefinition" and x[2] == "name" for x in da)
+                    has_ty = any(x[0] == "field" and x[1] in types_ and x[2] == "name" for x in da)
+                    if has_dir and has_ty and len(tests) == 1:
+                        mixed.append(short(call_name(srcs[0][0]) or "?"))
+            if mixed and not leaked:
+                R.violated("R11-e", key, "%s appends a built-in definition only if its name is not in the one set returned by %s, which holds "
+                           "the names of type definitions *and* of directive definitions: types and directives live in different namespaces, so "
+                           "a user directive suppresses the built-in type of the same name (and vice versa), and what extends or uses it is "
+                           "left without its definition" % (h.path, "/".join(sorted(set(mixed)))), loc=h.loc())
+                continue
             if leaked:
                 R.violated("R11-e", key, "%s appends the built-in definitions only if their name is not in a set that is also filled from the "
                            "*targets of `extend` items* (%s.name): an extension of a built-in type suppresses the built-in it extends and is then "
